@@ -4,14 +4,14 @@ C12 line-protocol driver.
   hist <step>;<step>;…        a whole history against a fresh process state (after caddy.Stop())
       step  = <M>,<path>,<body>,<ifmatch>,<flags>
       M     = G | P (POST) | U (PUT) | A (PATCH) | D (DELETE) | H (anything else → 405)
-      path  = hex of r.URL.Path; must start with "/config/" or "/id/"
+      path  = hex of r.URL.Path; must start with "/config/" or "/id/", or be "/load" or "/adapt"
       body  = `-` (no body) | `!` (undecodable JSON) | tree
       tree  = n | t | f | #<num># | s<hex>. | [tree…] | {<keyhex>.tree …}   (keys strictly sorted)
       ifm   = `-` | e<k> (the ETag step k returned) | p<k>.<pathhex> (that ETag's hash, other path)
             | w<pathhex> (well-formed, wrong hash) | r<hex> (raw header that is NOT of the form "a b")
-      flags = `-` | subset of f (Cache-Control: must-revalidate), c (Content-Type: text/plain)
+      flags = `-` | [f][one Content-Type letter]  (f = Cache-Control: must-revalidate; see `ctOfChar`)
   answer: per step  <resp>  for G/H, and  <resp>/<config>/<ids>/<probe loads>/<probe saw>  otherwise
-      resp  = g:<tree|->:<etag path hex> | w | r | amb | F<status>:<class>
+      resp  = g:<tree|->:<etag path hex> | w | d:<tree> (/adapt) | r | amb | F<status>:<class>
       ids   = for every distinct "@id" text in the config, sorted: <hex>=<resp of GET /id/<text>, etag path only>
   cas <k> <n>                 k concurrent clients × n conditional increments → `cas <k*n>`
 -/
@@ -141,7 +141,13 @@ def hashText : Option Json → Bytes
   | none => str "h-"
   | some j => str ("h" ++ encTree j)
 
-def drvEnv : Env := ⟨hashText, probeAccepts⟩
+/-- the harness world's one config adapter ("c12wrap"): X ↦ {"apps":{"c12":X}}; an empty or
+    undecodable body is an adapter error -/
+def wrapAdapter : Body → Option Json
+  | .val j => some (.obj [(str "apps", .obj [(str "c12", j)])])
+  | _ => none
+
+def drvEnv : Env := ⟨hashText, probeAccepts, wrapAdapter⟩
 
 /-- what the probe app was started with, if the running config has one -/
 def probeOf : Option Json → Option Json
@@ -163,6 +169,9 @@ def showFail : Fail → String
   | .precondition => "precondition" | .index => "index" | .load => "load"
   | .idMissing => "id-missing" | .idMalformed => "id-malformed" | .idUnknown => "id-unknown"
   | .notFound => "notfound" | .panic => "panic"
+  | .ctInvalid => "ct-invalid" | .ctMalformed => "ct-malformed" | .adapterUnknown => "adapter-unknown"
+  | .adaptFailed => "adapt-failed" | .adaptEncode => "adapt-encode"
+  | .viaLoad f => "L-" ++ showFail f
 
 def showStatus (f : Fail) (isGet : Bool) : Nat :=
   match f with
@@ -172,6 +181,7 @@ def showStatus (f : Fail) (isGet : Bool) : Nat :=
 def showResp (isGet : Bool) : Resp → String
   | .okGet out p => "g:" ++ (match out with | some j => encTree j | none => "-") ++ ":" ++ Hex.encode p
   | .okWrite => "w"
+  | .okAdapt j => "d:" ++ encTree j
   | .redirect => "r"
   | .ambiguous => "amb"
   | .fail f => "F" ++ toString (showStatus f isGet) ++ ":" ++ showFail f
@@ -191,7 +201,7 @@ def insertUniq (b : Bytes) : List Bytes → List Bytes
   | [] => [b]
   | x :: r => if b == x then x :: r else if bytesLt b x then b :: x :: r else x :: insertUniq b r
 
-def getReq (p : Bytes) : Req := ⟨.get, p, .empty, [], false, true⟩
+def getReq (p : Bytes) : Req := ⟨.get, p, .empty, [], false, .json⟩
 
 def showIds (s : State) : String :=
   let ids := (idTexts (cfgOf s.rawCfg)).foldl (fun acc b => insertUniq b acc) []
@@ -246,21 +256,40 @@ def parseIfMatch (etags : List (Option (Bytes × Bytes))) (s : String) : Option 
     | none => none
   | _ => none
 
-def parseFlags (s : String) : Option (Bool × Bool) :=
-  if s == "-" then some (false, false)
-  else if s.toList.all (fun c => c == 'f' || c == 'c') && !s.isEmpty then some (s.contains 'f', s.contains 'c')
-  else none
+/-- flags: `f` = Cache-Control: must-revalidate, plus at most one Content-Type letter:
+    (default) application/json, `n` none, `u` "application/json; charset=utf-8",
+    `x` application/jsonx, `c` text/plain, `m` "json", `i` "text/plain; charset" (unparsable),
+    `w` application/c12wrap (the registered adapter) -/
+def ctOfChar : Char → Option CT
+  | 'n' => some .none | 'u' => some .jsonParams | 'x' => some .jsonx | 'c' => some .plain
+  | 'm' => some .noSlash | 'i' => some .invalid | 'w' => some .adapter
+  | _ => none
+
+def parseFlags (s : String) : Option (Bool × CT) :=
+  if s == "-" then some (false, .json)
+  else
+    match s.toList.filter (· != 'f') with
+    | [] => if s.toList == ['f'] then some (true, .json) else none
+    | [c] =>
+      if s.toList.length ≤ 2 && (s.toList.length == 1 || s.toList.head? == some 'f') then
+        (ctOfChar c).map fun ct => (s.contains 'f', ct)
+      else none
+    | _ => none
 
 def pathOK (p : Bytes) : Bool :=
-  asciiOnly p && (cfgPrefix.isPrefixOf p || idPrefix.isPrefixOf p) && !(splitSlash p).any forbiddenName
+  asciiOnly p && (cfgPrefix.isPrefixOf p || idPrefix.isPrefixOf p || p == loadPath || p == adaptPath) &&
+    !(splitSlash p).any forbiddenName
 
 def stepDrv (d : Drv) (step : String) : Option Drv :=
   match step.splitOn "," with
   | [m, p, b, im, fl] =>
     match parseMethod m, Hex.decode p, parseBody b, parseIfMatch d.etags im, parseFlags fl with
-    | some hm, some path, some body, some ifm, some (force, badCt) =>
-      if !pathOK path then none else
-      let req : Req := ⟨hm, path, body, ifm, force, !badCt⟩
+    | some hm, some path, some body, some ifm, some (force, ct) =>
+      if !pathOK path then none
+      -- POST /adapt with an empty body is not a function of the request (pooled buffer: nil vs empty
+      -- json.RawMessage); outside the domain on both sides
+      else if path == adaptPath && hm == .post && body == .empty then none else
+      let req : Req := ⟨hm, path, body, ifm, force, ct⟩
       let (s', resp) := serve drvEnv req d.s
       let isGet := hm == .get
       let et := match resp with
